@@ -442,7 +442,8 @@ class GrammarCoverageFuzzer(GrammarFuzzer):
         self._symbols_seen: Set[str] = set()
         cov = self._max_expansion_coverage(symbol, max_depth)
 
-        if symbol == "<start>":
+        if symbol == "<start>" and max_depth == float("inf"):
+            # With a depth bound, not all symbols have to be reached.
             assert len(self._symbols_seen) == len(self.grammar)
 
         return cov
